@@ -448,7 +448,8 @@ impl FarmSim {
         let dont_care = emergency_path && (p.amount == 0 || p.amount >= 340_000_000_000_000_000_000);
         if (self.mon.c08 || self.mon.c09) && ok != valid && !dont_care {
             return Err(format!(
-                "[C08] {what}: accepted={ok}, the documented rules say {valid} (owner {}, closed {}, unlocked {expired}) ({:?})",
+                "[{}] {what}: accepted={ok}, the documented rules say {valid} (owner {}, closed {}, unlocked {expired}) ({:?})",
+                if self.mon.c09 { "C09" } else { "C08" },
                 !by_other,
                 !p.open,
                 r.err().map(|e| e.chars().take(120).collect::<String>())
